@@ -66,43 +66,78 @@ def run_plan(eng, plan, prop):
     return out
 
 
-def run_plan_iso(eng, plan, prop):
-    """run_plan in a forked child of this process.  Used by engines that set ISOLATE = True: their subject is
-    process-global state (patched torch internals), and a defect there must not leak from one run into the next,
-    or runs would stop being a pure function of their plan."""
+def _in_child(fn):
+    """Run fn() in a forked child of this process and return its (picklable) result; None if the child died."""
     import pickle
-    if not getattr(eng, "ISOLATE", False):
-        return run_plan(eng, plan, prop)
-    if hasattr(eng, "preload"):
-        eng.preload()
     rd, wr = os.pipe()
     pid = os.fork()
     if pid == 0:
         try:
             os.close(rd)
-            out = run_plan(eng, plan, prop)
-            d = {k: getattr(out, k) for k in Outcome.__slots__}
+            res = fn()
             with os.fdopen(wr, "wb") as f:
-                pickle.dump(d, f)
+                pickle.dump(res, f)
         finally:
             os._exit(0)
     os.close(wr)
     with os.fdopen(rd, "rb") as f:
         data = f.read()
     os.waitpid(pid, 0)
+    return pickle.loads(data) if data else None
+
+
+def _out_dict(out):
+    return {k: getattr(out, k) for k in Outcome.__slots__}
+
+
+def _out_from(d):
     out = Outcome()
-    if not data:
+    if d is None:
         out.status, out.oracle, out.detail = HARNESS, "harness", "isolated child died without a result"
         return out
-    for k, v in pickle.loads(data).items():
+    for k, v in d.items():
         setattr(out, k, v)
     return out
+
+
+def run_plan_iso(eng, plan, prop):
+    """run_plan in a forked child of this (pristine) process: the run sees a process in which no other run has
+    happened.  Used for shrinking, confirmation and replay, and for every run of engines with ISOLATE == "run"."""
+    if hasattr(eng, "preload"):
+        eng.preload()
+    return _out_from(_in_child(lambda: _out_dict(run_plan(eng, plan, prop))))
+
+
+def run_history_iso(eng, plans, prop):
+    """Execute several plans one after the other in ONE forked child (a process history) and return the outcome
+    of the last one.  A defect that keeps state in the process shows only this way."""
+    if hasattr(eng, "preload"):
+        eng.preload()
+    def go():
+        out = None
+        for pl in plans:
+            out = run_plan(eng, pl, prop)
+        return _out_dict(out)
+    return _out_from(_in_child(go))
 
 
 # ---------------------------------------------------------------------------------------------
 # batch on a pool
 
 def _work(args):
+    eng = engine(args[0])
+    mode = getattr(eng, "ISOLATE", "chunk")
+    if mode == "chunk":
+        if hasattr(eng, "preload"):
+            eng.preload()
+        res = _in_child(lambda: _work_body(args, per_run_fork=False))
+        if res is None:
+            res = empty_agg(); res["harness"].append((args[4], -1, None, "chunk child died (runs %d..%d)" % (args[4], args[5])))
+        return res
+    return _work_body(args, per_run_fork=(mode == "run"))
+
+
+def _work_body(args, per_run_fork):
     eng_name, prop, tier, base_seed, lo, hi, want_digests = args
     eng = engine(eng_name)
     agg = {"runs": 0, "ok": 0, "viol": [], "harness": [], "faults": {}, "probes": {}, "sigs": set(),
@@ -117,14 +152,14 @@ def _work(args):
         except Exception:
             agg["harness"].append((idx, seed, None, "generate: " + traceback.format_exc()[-2000:]))
             continue
-        out = run_plan_iso(eng, plan, prop)
+        out = run_plan_iso(eng, plan, prop) if per_run_fork else run_plan(eng, plan, prop)
         faulthandler.cancel_dump_traceback_later()
         agg["runs"] += 1
         if out.status == OK:
             agg["ok"] += 1
         elif out.status == VIOLATION:
             if len(agg["viol"]) < 6:
-                agg["viol"].append((idx, seed, plan, out.to_dict()))
+                agg["viol"].append((idx, seed, plan, dict(out.to_dict(), chunk_lo=lo)))
             else:
                 agg["viol"].append((idx, seed, None, {"oracle": out.oracle, "key": out.key}))
         else:
@@ -176,7 +211,7 @@ def run_batch(eng_name, prop, tier, base_seed, n_runs, wall_budget, workers=None
     is reported).  Deterministic per index; the order of completion does not matter."""
     env.setup()
     workers = workers or int(os.environ.get("VERIF_WORKERS", "0")) or min(16, os.cpu_count() or 1)
-    chunk = chunk or max(1, min(16, n_runs // (workers * 6) or 1))
+    chunk = chunk or max(1, min(getattr(engine(eng_name), "CHUNK", 16), n_runs // (workers * 6) or 1))
     t0 = time.time()
     agg = empty_agg()
     tasks = [(eng_name, prop, tier, base_seed, lo, min(lo + chunk, n_runs), tuple(want_digests))
